@@ -16,9 +16,16 @@ package redis
 
 import (
 	"errors"
+
+	"github.com/cybergarage/go-redis/redis/auth"
 )
 
 func (server *Server) Auth(conn *Conn, username string, password string) (*Message, error) {
+	// The authenticators regard an empty password as not presented, but AUTH
+	// always presents one.
+	if len(password) == 0 {
+		return nil, auth.ErrAuthrizationFailed
+	}
 	conn.SetUserName(username)
 	conn.SetPassword(password)
 	ok, err := server.Authenticate(conn)
